@@ -394,6 +394,7 @@ class FilePersister : public Persister
 	int _fod, _iod;
 	unsigned _rotnum;
 	bool _wasCreated;
+	off_t _control_offset = -1; // where the control record lives in the index file, once it has been written
 
 	using Index = std::map<uint32_t, Prec>;
 	Index _index;
